@@ -31,7 +31,7 @@ ACTIONS = ['connect-hold', 'connect-hold', 'connect-refused',
            'reconnect-exit-callback', 'cancel-reconnect-listener',
            'stall-then-disconnect', 'negotiation-silent-then-disconnect',
            'reconnect-listener-lingers', 'status-ping-connect-in-callback',
-           'reconnect-early-listener']
+           'reconnect-early-listener', 'reconnect-exit-callback-lingers']
 
 
 class Harness(object):
@@ -366,6 +366,7 @@ def history_case(run, rng, pv, actions, idx, encrypted=False):
                                       early=True)
         state = 'idle'
         live = None
+        lingered = []
         linger_s = 3.0 if idx % 2 == 0 else 4.0
 
         def bad(key, what, **extra):
@@ -386,14 +387,16 @@ def history_case(run, rng, pv, actions, idx, encrypted=False):
             run.seen('state_action', '%s/%s' % (state, action))
             if action.startswith('connect-') or action == 'status' or \
                     action in ('reconnect-exc-handler',
-                               'reconnect-exit-callback'):
+                               'reconnect-exit-callback',
+                               'reconnect-exit-callback-lingers'):
                 mode = {'connect-hold': 'hold',
                         'connect-login-disconnect': 'login-disconnect',
                         'connect-play-disconnect': 'play-disconnect',
                         'connect-midframe': 'midframe',
                         'reconnect-exc-handler': 'login-disconnect',
-                        'reconnect-exit-callback': 'play-disconnect'}.get(
-                            action, 'hold')
+                        'reconnect-exit-callback': 'play-disconnect',
+                        'reconnect-exit-callback-lingers': 'play-disconnect'
+                        }.get(action, 'hold')
                 H.next_mode = mode
                 if action == 'connect-refused':
                     conn.options.port = H.closed_port
@@ -405,6 +408,16 @@ def history_case(run, rng, pv, actions, idx, encrypted=False):
                     hooks['exc'] = again
                 if action == 'reconnect-exit-callback' and state == 'idle':
                     hooks['exit'] = again
+
+                def again_and_linger():
+                    # the exit callback starts the next session and then goes
+                    # on for a while (user code after connect())
+                    again()
+                    time.sleep(0.4)
+                    lingered.append(1)
+                if action == 'reconnect-exit-callback-lingers' and \
+                        state == 'idle':
+                    hooks['exit'] = again_and_linger
                 raised = None
                 try:
                     if action == 'status':
@@ -456,7 +469,8 @@ def history_case(run, rng, pv, actions, idx, encrypted=False):
                         return None
                     state = 'active'
                 elif action in ('reconnect-exc-handler',
-                                'reconnect-exit-callback'):
+                                'reconnect-exit-callback',
+                                'reconnect-exit-callback-lingers'):
                     # first connection ends, the callback reconnects (hold)
                     ok = pc.wait_for(lambda: len(H.ios) >= n_ios + 2 and
                                      getattr(H.ios[-1], 'phase', '') == 'play',
@@ -470,6 +484,29 @@ def history_case(run, rng, pv, actions, idx, encrypted=False):
                     live = H.ios[-1]
                     state = 'active'
                     run.count('reconnects_from_callbacks')
+                    if action == 'reconnect-exit-callback-lingers':
+                        # once the callback has returned, the new session is
+                        # the registered, active one
+                        pc.wait_for(lambda: lingered, 5.0)
+                        time.sleep(0.1)
+                        n_now = len(H.ios)
+                        try:
+                            conn.connect()
+                            r2 = None
+                        except Exception as e:
+                            r2 = e
+                        if not isinstance(r2, InvalidState):
+                            bad('active/not-refused', 'connect()/status() on '
+                                'an active connection must raise InvalidState '
+                                '(session started by a lingering exit '
+                                'callback)', raised=repr(r2))
+                            return None
+                        if len(H.ios) != n_now or not H.alive(live):
+                            bad('active/disturbed', 'the live connection no '
+                                'longer echoes keep-alives after a refused '
+                                'call')
+                            return None
+                        run.count('reconnects_from_lingering_exit_callback')
                 else:
                     if not pc.wait_idle(conn, 15.0):
                         return 'threads alive after %s: %s' % (
